@@ -50,6 +50,17 @@ Proof. destruct s as [|a [|b [|c t]]]; simpl; auto; discriminate. Qed.
 Lemma T1_codes : code_challenge = 334 /\ code_success = 235.
 Proof. split; reflexivity. Qed.
 
+(* no reply of the list is an empty challenge (which restarts the exchange) *)
+Definition NoRestart (l : list reply) : Prop :=
+  Forall (fun r => forall m64, r = Reply code_challenge m64 -> go_b64dec m64 <> Some []) l.
+
+Lemma NoRestart_snoc : forall l m64 m0 m, NoRestart l -> go_b64dec m64 = Some (m0 :: m) ->
+  NoRestart (l ++ [Reply code_challenge m64]).
+Proof.
+  intros l m64 m0 m N D. apply Forall_app. split; auto. constructor; [|constructor].
+  intros x E. inversion E; subst. rewrite D. discriminate.
+Qed.
+
 Section C15.
   Variable H : bytes -> bytes.
   Variable HMAC : bytes -> bytes -> bytes.
@@ -63,13 +74,13 @@ Section C15.
   Let Sig := server_sig HMAC.
   Let Key := fun pw salt it => pbkdf2_key HMAC pw salt it hsize hsize.
 
-  (* the client-first-message of the running exchange is on the wire, its nonce was drawn from the oracle,
+  (* the client-first-message of the exchange is line [k] on the wire, its nonce was drawn from the oracle,
      and the nonce the state holds extends it *)
-  Definition ClientFirstSent (st : scram_state) (sent : list bytes) : Prop :=
+  Definition CFAt (st : scram_state) (sent : list bytes) (k : nat) : Prop :=
     exists cn uname gs2,
       ss_bare st = bs "n=" ++ uname ++ bs ",r=" ++ cn /\
       precis (escape_name (sid_user id)) = Some uname /\
-      In (b64enc (gs2 ++ ss_bare st)) sent /\
+      nth_error sent k = Some (b64enc (gs2 ++ ss_bare st)) /\
       In cn (map b64enc rands0) /\
       is_prefix cn (ss_nonce st) = true.
 
@@ -93,14 +104,28 @@ Section C15.
   Definition SawFinal (st : scram_state) (pre : list reply) : Prop :=
     exists p l2, pre = p ++ l2 /\ FinalAt st p.
 
-  (* the state-free statement of the property's conclusion *)
-  Definition Authenticated (script : list reply) (sent : list bytes) : Prop :=
-    exists st, ClientFirstSent st sent /\ SawFinal st script.
+  (* the exchange that is RUNNING: started by the empty challenge [e] (the last one: no restart in [tail]), whose
+     client-first is the line written in answer to [e] *)
+  Definition Running (st : scram_state) (pre : list reply) (sent : list bytes) : Prop :=
+    exists l0 e tail,
+      pre = l0 ++ Reply code_challenge e :: tail /\ go_b64dec e = Some [] /\ NoRestart tail /\
+      CFAt st sent (S (length l0)) /\
+      (is_nil (ss_authmsg st) = false -> SawFirst st tail) /\
+      (ss_verified st = true -> SawFinal st tail).
 
-  (* every empty line on the wire answers a valid server-final of the exchange running at that point *)
+  (* the conclusion of the property: the script is  l0 ++ [empty challenge] ++ tail ++ [success reply] ++ rest  with no
+     restart in tail, the client-first answering that empty challenge, and server-first / valid server-final in tail *)
+  Definition Authenticated (script : list reply) (sent : list bytes) : Prop :=
+    exists st l0 e tail m rest,
+      script = l0 ++ Reply code_challenge e :: tail ++ Reply code_success m :: rest /\
+      go_b64dec e = Some [] /\ NoRestart tail /\ CFAt st sent (S (length l0)) /\ SawFinal st tail.
+
+  (* every empty line on the wire answers the valid server-final of the exchange running at that point *)
   Definition AcksValid (pre : list reply) (sent : list bytes) : Prop :=
     forall s1 s2 : list bytes, sent = s1 ++ ([] : bytes) :: s2 ->
-      exists st, ClientFirstSent st s1 /\ FinalAt st (firstn (length s1) pre) /\ (1 <= length s1)%nat.
+      exists st l0 e tail,
+        firstn (length s1) pre = l0 ++ Reply code_challenge e :: tail /\ go_b64dec e = Some [] /\ NoRestart tail /\
+        CFAt st s1 (S (length l0)) /\ FinalAt st tail /\ (1 <= length s1)%nat.
 
   Definition same_core (a b : scram_state) : Prop :=
     ss_bare a = ss_bare b /\ ss_nonce a = ss_nonce b /\ ss_salted a = ss_salted b /\
@@ -124,10 +149,10 @@ Section C15.
     intros st pre l (p & l2 & E & F). exists p, (l2 ++ l). split; auto. subst. rewrite app_assoc. reflexivity.
   Qed.
 
-  Lemma ClientFirstSent_mono : forall st sent x, ClientFirstSent st sent -> ClientFirstSent st (sent ++ x).
+  Lemma CFAt_mono : forall st sent x k, CFAt st sent k -> CFAt st (sent ++ x) k.
   Proof.
-    intros st sent x (cn & un & gs2 & P1 & P2 & P3 & P4 & P5). exists cn, un, gs2.
-    repeat split; auto. apply in_or_app. auto.
+    intros st sent x k (cn & un & gs2 & P1 & P2 & P3 & P4 & P5). exists cn, un, gs2.
+    repeat split; auto. rewrite nth_error_app1; auto. apply nth_error_Some. rewrite P3. discriminate.
   Qed.
 
   (* ---- the invariant of the Auth loop ---- *)
@@ -135,18 +160,17 @@ Section C15.
     inv_len : length sent = S (length pre);
     inv_rands : exists used, rands0 = used ++ snd s;
     inv_fresh : is_nil (ss_nonce (fst s)) = true -> pre = [];
-    inv_cf : is_nil (ss_nonce (fst s)) = false -> ClientFirstSent (fst s) sent;
-    inv_first : is_nil (ss_authmsg (fst s)) = false -> is_nil (ss_nonce (fst s)) = false /\ SawFirst (fst s) pre;
+    inv_run : is_nil (ss_nonce (fst s)) = false -> Running (fst s) pre sent;
+    inv_first : is_nil (ss_authmsg (fst s)) = false -> is_nil (ss_nonce (fst s)) = false;
     inv_salted : is_nil (ss_authmsg (fst s)) = true -> ss_verified (fst s) = false;
-    inv_final : ss_verified (fst s) = true -> SawFinal (fst s) pre;
     inv_acks : AcksValid pre sent;
     inv_nonempty_head : forall l s2, sent = l :: s2 -> is_nil l = false }.
 
   Lemma acks_weaken : forall pre l sent,
     (length sent <= S (length pre))%nat -> AcksValid pre sent -> AcksValid (pre ++ l) sent.
   Proof.
-    intros pre l sent L A s1 s2 E. destruct (A s1 s2 E) as (st & C & F & G).
-    exists st. split; auto. split; auto.
+    intros pre l sent L A s1 s2 E. destruct (A s1 s2 E) as (st & l0 & e & tail & F & R).
+    exists st, l0, e, tail. split; auto.
     assert (length s1 <= length pre)%nat.
     { subst sent. rewrite app_length in L. simpl in L. lia. }
     rewrite firstn_app. replace (length s1 - length pre)%nat with 0%nat by lia.
@@ -164,17 +188,18 @@ Section C15.
       apply (A s1 s2' E).
   Qed.
 
-  Lemma acks_snoc_ack : forall st pre sent r,
+  Lemma acks_snoc_ack : forall st pre sent r l0 e tail,
     length sent = S (length pre) -> AcksValid pre sent ->
-    ClientFirstSent st sent -> FinalAt st (pre ++ [r]) ->
+    pre = l0 ++ Reply code_challenge e :: tail -> go_b64dec e = Some [] -> NoRestart (tail ++ [r]) ->
+    CFAt st sent (S (length l0)) -> FinalAt st (tail ++ [r]) ->
     AcksValid (pre ++ [r]) (sent ++ [[]]).
   Proof.
-    intros st pre sent r L A C F s1 s2 E.
+    intros st pre sent r l0 e tail L A EP D NR C F s1 s2 E.
     destruct (list_eq_dec (list_eq_dec N.eq_dec) s2 []) as [->|NE2].
-    - apply app_inj_tail in E. destruct E as [E _]. rewrite <- E. exists st. split; auto.
-      rewrite L. split; [|lia].
+    - apply app_inj_tail in E. destruct E as [E _]. rewrite <- E. exists st, l0, e, (tail ++ [r]).
+      rewrite L. repeat split; auto; [|lia].
       replace (S (length pre)) with (length (pre ++ [r])) by (rewrite app_length; simpl; lia).
-      rewrite firstn_all. auto.
+      rewrite firstn_all. subst pre. rewrite <- app_assoc. reflexivity.
     - destruct (exists_last NE2) as (s2' & x & ->).
       rewrite app_comm_cons, app_assoc in E. apply app_inj_tail in E. destruct E as [E _].
       assert (A' : AcksValid (pre ++ [r]) sent) by (apply acks_weaken; auto; lia).
@@ -267,17 +292,17 @@ Section C15.
   Proof. intros. repeat split. Qed.
 
 
-  Lemma ClientFirstSent_core : forall a b sent,
-    ss_bare a = ss_bare b -> ss_nonce a = ss_nonce b -> ClientFirstSent a sent -> ClientFirstSent b sent.
+  Lemma CFAt_core : forall a b sent k,
+    ss_bare a = ss_bare b -> ss_nonce a = ss_nonce b -> CFAt a sent k -> CFAt b sent k.
   Proof.
-    intros a b sent E1 E2 (cn & un & gs2 & P). exists cn, un, gs2. rewrite <- E1, <- E2. auto.
+    intros a b sent k E1 E2 (cn & un & gs2 & P). exists cn, un, gs2. rewrite <- E1, <- E2. auto.
   Qed.
 
-  Lemma ClientFirstSent_ext : forall a b sent,
+  Lemma CFAt_ext : forall a b sent k,
     ss_bare a = ss_bare b -> is_prefix (ss_nonce a) (ss_nonce b) = true ->
-    ClientFirstSent a sent -> ClientFirstSent b sent.
+    CFAt a sent k -> CFAt b sent k.
   Proof.
-    intros a b sent E1 E2 (cn & un & gs2 & P1 & P2 & P3 & P4 & P5). exists cn, un, gs2. rewrite <- E1.
+    intros a b sent k E1 E2 (cn & un & gs2 & P1 & P2 & P3 & P4 & P5). exists cn, un, gs2. rewrite <- E1.
     repeat split; auto. eapply is_prefix_trans; eauto.
   Qed.
 
@@ -289,11 +314,11 @@ Section C15.
     Inv s' (pre ++ [Reply code_challenge msg64]) (sent ++ [b64enc resp]).
   Proof.
     intros [st rands] pre sent msg64 msg s' resp I D E.
-    destruct I as [IL IR IF ICF IFI IS IFN IA IH]. simpl in *.
+    destruct I as [IL IR IF IRUN IFI IS IA IH]. simpl in *.
     assert (L1 : (1 <= length sent)%nat) by lia.
     unfold scram_next in E. simpl in E.
     destruct msg as [|m0 msg'].
-    - (* empty challenge: a new client-first *)
+    - (* empty challenge: the exchange (re)starts with a new client-first *)
       destruct (initial_client_message precis id (ss_reset st) rands) as [[st1 rands1] [r|]] eqn:IC;
         inversion E; subst; clear E.
       destruct (initial_spec _ _ _ _ _ IC) as ((r0 & RE) & NE & AM & VF & Rest).
@@ -302,12 +327,15 @@ Section C15.
       + rewrite !app_length. simpl. lia.
       + exists (used ++ [r0]). rewrite <- app_assoc. simpl. subst rands. auto.
       + intros X. rewrite X in NN. discriminate.
-      + intros _. exists cn, uname, gs2. repeat split; auto.
-        * apply in_or_app. right. left. subst resp. reflexivity.
-        * rewrite B4. apply is_prefix_refl.
+      + intros _. exists pre, msg64, []. repeat split; auto.
+        * constructor.
+        * exists cn, uname, gs2. repeat split; auto.
+          -- rewrite nth_error_app2 by lia. rewrite IL, Nat.sub_diag. simpl. subst resp. reflexivity.
+          -- rewrite B4. apply is_prefix_refl.
+        * intros X. rewrite X in AM. discriminate.
+        * intros X. rewrite X in VF. discriminate.
       + intros X. rewrite X in AM. discriminate.
       + auto.
-      + intros X. rewrite X in VF. discriminate.
       + apply acks_snoc; [apply acks_weaken; auto; lia | apply b64enc_nonnil; auto].
       + apply head_nonempty_app; auto.
     - remember (m0 :: msg') as msg.
@@ -323,19 +351,28 @@ Section C15.
                               end
                          else ((ss_reset st, rands), None)) = (s', Some (Some resp))).
       { subst msg. exact E. }
-      clear E. destruct (is_prefix (bs "r=") msg) eqn:PR.
+      clear E.
+      assert (NRS : forall tail, NoRestart tail -> NoRestart (tail ++ [Reply code_challenge msg64])).
+      { intros tail NT. subst msg. eapply NoRestart_snoc; eauto. }
+      assert (APP : forall l0 e tail, pre = l0 ++ Reply code_challenge e :: tail ->
+                pre ++ [Reply code_challenge msg64] = l0 ++ Reply code_challenge e :: (tail ++ [Reply code_challenge msg64])).
+      { intros l0 e tail ->. rewrite <- app_assoc. reflexivity. }
+      destruct (is_prefix (bs "r=") msg) eqn:PR.
       + (* server-first *)
         destruct (handle_server_first H HMAC hsize precis id st msg) as [[st1 r]|] eqn:HF;
           inversion E'; subst s' resp; clear E'.
         destruct (first_spec _ _ _ _ HF) as (NE & B1 & B2 & VF & N0 & PX & AM & N1 & salt & it & pw & Q1 & Q2 & Q3 & Q4).
+        destruct (IRUN N0) as (l0 & e & tail & EP & DE & NT & CF & _ & _).
         constructor; simpl.
         * rewrite !app_length. simpl. lia.
         * auto.
         * intros X. rewrite X in N1. discriminate.
-        * intros _. apply ClientFirstSent_mono. eapply ClientFirstSent_ext; [| |apply ICF; auto]; auto.
-        * intros _. split; auto. exists pre, [], msg64, msg, salt, it, pw. repeat split; auto.
+        * intros _. exists l0, e, (tail ++ [Reply code_challenge msg64]). repeat split; auto.
+          -- apply CFAt_mono. eapply CFAt_ext; [| |exact CF]; auto.
+          -- intros _. exists tail, [], msg64, msg, salt, it, pw. repeat split; auto.
+          -- intros X. rewrite X in VF. discriminate.
+        * auto.
         * intros X. rewrite X in AM. discriminate.
-        * intros X. rewrite X in VF. discriminate.
         * apply acks_snoc; [apply acks_weaken; auto; lia | apply b64enc_nonnil; auto].
         * apply head_nonempty_app; auto.
       + destruct (is_prefix (bs "v=") msg) eqn:PV; [|discriminate].
@@ -343,22 +380,26 @@ Section C15.
         destruct (handle_server_final HMAC cfg_fixed st msg) as [[st1 r]|] eqn:HF;
           inversion E'; subst s' resp; clear E'.
         destruct (final_spec _ _ _ _ HF) as (RN & SC & VT & AM & SG). subst r.
-        destruct (IFI AM) as [NN SF].
+        pose proof (IFI AM) as NN.
+        destruct (IRUN NN) as (l0 & e & tail & EP & DE & NT & CF & SFI & _).
+        pose proof (SFI AM) as SF.
         pose proof SC as (C1 & C2 & C3 & C4 & C5).
-        assert (CF1 : ClientFirstSent st1 sent) by (eapply ClientFirstSent_core; [| |apply ICF; auto]; auto).
-        assert (FA : FinalAt st1 (pre ++ [Reply code_challenge msg64])).
-        { exists pre, msg64. split; auto. split; [eapply SawFirst_core; eauto|].
+        assert (CF1 : CFAt st1 sent (S (length l0))) by (eapply CFAt_core; [| |exact CF]; auto).
+        assert (FA : FinalAt st1 (tail ++ [Reply code_challenge msg64])).
+        { exists tail, msg64. split; auto. split; [eapply SawFirst_core; eauto|].
           rewrite D. f_equal. rewrite <- C3, <- C4, <- SG.
           apply (is_prefix_split (bs "v=") msg PV). }
         constructor; simpl.
         * rewrite !app_length. simpl. lia.
         * auto.
         * intros X. rewrite <- C2 in X. rewrite X in NN. discriminate.
-        * intros _. apply ClientFirstSent_mono. auto.
-        * intros _. rewrite <- C2. split; auto. apply SawFirst_app. eapply SawFirst_core; eauto.
+        * intros _. exists l0, e, (tail ++ [Reply code_challenge msg64]). repeat split; auto.
+          -- apply CFAt_mono. auto.
+          -- intros _. apply SawFirst_app. eapply SawFirst_core; eauto.
+          -- intros _. exists (tail ++ [Reply code_challenge msg64]), []. rewrite app_nil_r. auto.
+        * intros _. rewrite <- C2. auto.
         * intros X. rewrite <- C4 in X. rewrite X in AM. discriminate.
-        * intros _. exists (pre ++ [Reply code_challenge msg64]), []. rewrite app_nil_r. auto.
-        * apply (acks_snoc_ack st1); auto.
+        * apply (acks_snoc_ack st1 pre sent _ l0 e tail); auto.
         * apply head_nonempty_app; auto.
   Qed.
 
@@ -410,7 +451,7 @@ Section C15.
 
   Lemma next_more_never_nil : forall s msg s', m_next M s msg true <> (s', Some None).
   Proof.
-    intros [st rands] msg s' NX. unfold M, scram_mech, m_next, scram_next in NX. cbn [fst snd] in NX.
+    intros [st rands] msg s' NX. unfold M, scram_mech, m_next, scram_next in NX. cbn [fst snd restart_resets cfg_fixed] in NX.
     destruct msg as [|m0 msg'].
     - destruct (initial_client_message precis id (ss_reset st) rands) as [[? ?] [?|]]; discriminate.
     - remember (m0 :: msg') as msg eqn:EM.
@@ -456,11 +497,13 @@ Section C15.
     - split; [|simpl; apply acks_weaken; auto; lia]. intros _. simpl.
       apply andb_false_iff in G. destruct G as [G|G]; apply negb_false_iff in G.
       + right. pose proof (inv_fresh _ _ _ I G) as X. simpl in X. subst pre. exists msg64, rest. reflexivity.
-      + left. exists st. pose proof (inv_final _ _ _ I G) as SF. simpl in SF.
+      + left.
         destruct (is_nil (ss_authmsg st)) eqn:AM.
         { pose proof (inv_salted _ _ _ I AM) as X. simpl in X. congruence. }
-        destruct (inv_first _ _ _ I AM) as [NN _]. simpl in NN.
-        split; [apply (inv_cf _ _ _ I NN) | apply SawFinal_app; auto].
+        pose proof (inv_first _ _ _ I AM) as NN. simpl in NN.
+        destruct (inv_run _ _ _ I NN) as (l0 & e & tail & EP & DE & NT & CF & _ & SFN). simpl in *.
+        exists st, l0, e, tail, msg64, rest. repeat split; auto.
+        subst pre. rewrite <- app_assoc. reflexivity.
   Qed.
 
   Lemma loop_good : forall rest active name s code msg64 o pre,
@@ -506,8 +549,6 @@ Section C15.
     { intros. constructor; simpl; auto.
       - exists []. reflexivity.
       - discriminate.
-      - discriminate.
-      - discriminate.
       - intros s1 s2 E. destruct s1 as [|x s1]; [inversion E|]. inversion E. destruct s1; discriminate.
       - intros l s2 E. inversion E. reflexivity. }
     destruct script as [|[c mm|] rest]; simpl.
@@ -518,14 +559,18 @@ Section C15.
 End C15.
 
 (* ---- the state-free reading of the result ---- *)
-(* [p] is a reply sequence that ends with the server-final message valid for an exchange whose client-first
-   (nonce cn drawn from the oracle) is among [sent] and whose server-first occurs earlier in [p]. *)
-Definition ValidExchange (HMAC : bytes -> bytes -> bytes) (hsize : nat) (precis : bytes -> option bytes)
-           (id : scram_id) (rands : list bytes) (sent : list bytes) (p : list reply) : Prop :=
-  exists l1 mi l2 mj sfirst salt it pw cn uname gs2 combined cbind,
-    p = l1 ++ Reply code_challenge mi :: l2 ++ [Reply code_challenge mj] /\
+(* The exchange started by the empty challenge [e] that follows [l0] in the script: [tail] (the replies after [e]) contains
+   no further empty challenge (no restart), the client-first written in answer to [e] is line S |l0| on the wire and carries a
+   nonce drawn from the oracle, [tail] = t1 ++ [server-first] ++ t2 ++ [server-final] ++ t3 with a well-formed server-first
+   whose nonce extends the client nonce and the ServerSignature over this exchange's AuthMessage under the salted password. *)
+Definition RunningExchange (HMAC : bytes -> bytes -> bytes) (hsize : nat) (precis : bytes -> option bytes)
+           (id : scram_id) (rands : list bytes) (sent : list bytes)
+           (l0 : list reply) (e : bytes) (tail t3 : list reply) : Prop :=
+  exists t1 mi t2 mj sfirst salt it pw cn uname gs2 combined cbind,
+    tail = t1 ++ Reply code_challenge mi :: t2 ++ Reply code_challenge mj :: t3 /\
+    go_b64dec e = Some [] /\ NoRestart tail /\
     (* the client-first-message of this exchange *)
-    In (b64enc (gs2 ++ bs "n=" ++ uname ++ bs ",r=" ++ cn)) sent /\
+    nth_error sent (S (length l0)) = Some (b64enc (gs2 ++ bs "n=" ++ uname ++ bs ",r=" ++ cn)) /\
     In cn (map b64enc rands) /\
     precis (escape_name (sid_user id)) = Some uname /\
     (* a well-formed server-first-message whose nonce extends the client nonce *)
@@ -536,26 +581,28 @@ Definition ValidExchange (HMAC : bytes -> bytes -> bytes) (hsize : nat) (precis 
                             ((bs "n=" ++ uname ++ bs ",r=" ++ cn) ++ bs "," ++ sfirst ++ bs "," ++
                              bs "c=" ++ cbind ++ bs ",r=" ++ combined)).
 
-Lemma valid_exchange_intro : forall HMAC hsize precis id rands st sent p,
-  ClientFirstSent precis id rands st sent -> FinalAt HMAC hsize precis id st p ->
-  ValidExchange HMAC hsize precis id rands sent p.
+Lemma running_exchange_intro : forall HMAC hsize precis id rands st sent l0 e p t3,
+  go_b64dec e = Some [] -> NoRestart (p ++ t3) ->
+  CFAt precis id rands st sent (S (length l0)) -> FinalAt HMAC hsize precis id st p ->
+  RunningExchange HMAC hsize precis id rands sent l0 e (p ++ t3) t3.
 Proof.
-  intros HMAC hsize precis id rands st sent p (cn & un & gs2 & C1 & C2 & C3 & C4 & C5)
+  intros HMAC hsize precis id rands st sent l0 e p t3 DE NR (cn & un & gs2 & C1 & C2 & C3 & C4 & C5)
          (l1' & mj & E & (l1 & l2 & mi & sf & salt & it & pw & S1 & S2 & S3 & S4 & S5 & S6) & F).
   exists l1, mi, l2, mj, sf, salt, it, pw, cn, un, gs2, (ss_nonce st),
          (if sid_plus id then ss_bind st else bs "biws").
   rewrite S5, S6, C1 in F. rewrite C1 in C3.
   repeat split; auto.
-  - subst. rewrite <- app_assoc. reflexivity.
+  - subst. rewrite <- !app_assoc. reflexivity.
   - rewrite F. unfold msg_without_proof. destruct (sid_plus id); reflexivity.
 Qed.
 
 Definition gen_scram_cfg : scram_cfg :=
   {| start_resets := Gen.scram_start_resets;
      final_requires_first := Gen.scram_final_requires_first;
-     done_requires_verified := Gen.scram_done_requires_verified |}.
+     done_requires_verified := Gen.scram_done_requires_verified;
+     restart_resets := Gen.scram_restart_resets |}.
 
-(* T1: the working tree has the three repairs *)
+(* T1: the working tree has the three repairs and restarts an exchange from a clean state *)
 Lemma gen_scram_cfg_fixed : gen_scram_cfg = cfg_fixed.
 Proof. reflexivity. Qed.
 
@@ -565,13 +612,15 @@ Lemma scram_success_authenticated :
     Forall (fun r => is_nil r = false) rands ->
     let f := auth (scram_mech H HMAC hsize precis gen_scram_cfg id) lad a0 (st, rands) script in
     f_res f = ASuccess ->
-    (exists p rest, script = p ++ rest /\ ValidExchange HMAC hsize precis id rands (o_sent (f_out f)) p)
+    (exists l0 e tail t3 m rest,
+        script = l0 ++ Reply code_challenge e :: tail ++ Reply code_success m :: rest /\
+        RunningExchange HMAC hsize precis id rands (o_sent (f_out f)) l0 e tail t3)
     \/ (exists m rest, script = Reply code_success m :: rest).
 Proof.
   intros H HMAC hsize precis id rands st lad a0 script NE f S. subst f. rewrite gen_scram_cfg_fixed in *.
   destruct (auth_good H HMAC hsize precis id rands NE st lad a0 script) as [G _].
-  destruct (G S) as [(st' & C & (p & l2 & E & F))|B]; [left|right; auto].
-  exists p, l2. split; auto. eapply valid_exchange_intro; eauto.
+  destruct (G S) as [(st' & l0 & e & tail & m & rest & ES & DE & NR & C & (p & l2 & E & F))|B]; [left|right; auto].
+  exists l0, e, tail, l2, m, rest. split; auto. subst tail. eapply running_exchange_intro; eauto.
 Qed.
 
 Lemma scram_ack_only_valid_final :
@@ -580,19 +629,15 @@ Lemma scram_ack_only_valid_final :
     Forall (fun r => is_nil r = false) rands ->
     let f := auth (scram_mech H HMAC hsize precis gen_scram_cfg id) lad a0 (st, rands) script in
     forall s1 s2 : list bytes, o_sent (f_out f) = s1 ++ ([] : bytes) :: s2 ->
-      ValidExchange HMAC hsize precis id rands s1 (firstn (length s1) script).
+      exists l0 e tail,
+        firstn (length s1) script = l0 ++ Reply code_challenge e :: tail /\
+        RunningExchange HMAC hsize precis id rands s1 l0 e tail [].
 Proof.
   intros H HMAC hsize precis id rands st lad a0 script NE f s1 s2 E. subst f. rewrite gen_scram_cfg_fixed in *.
   destruct (auth_good H HMAC hsize precis id rands NE st lad a0 script) as [_ A].
-  destruct (A s1 s2 E) as (st' & C & F & _). eapply valid_exchange_intro; eauto.
-Qed.
-
-Lemma valid_exchange_has_challenges : forall HMAC hsize precis id rands sent p,
-  ValidExchange HMAC hsize precis id rands sent p ->
-  exists l1 mi l2 mj, p = l1 ++ Reply code_challenge mi :: l2 ++ [Reply code_challenge mj].
-Proof.
-  intros HMAC hsize precis id rands sent p (l1 & mi & l2 & mj & sf & salt & it & pw & cn & un & gs2 & cmb & cb & E & _).
-  exists l1, mi, l2, mj. exact E.
+  destruct (A s1 s2 E) as (st' & l0 & e & tail & EF & DE & NR & C & F & _).
+  exists l0, e, tail. split; auto.
+  rewrite <- (app_nil_r tail). eapply running_exchange_intro; eauto. rewrite app_nil_r. auto.
 Qed.
 
 (* the recorded class: the AUTH command itself is answered with the success code *)
@@ -602,14 +647,54 @@ Lemma scram_bare_success_refuted :
   exists script,
     let f := auth (scram_mech H HMAC hsize precis gen_scram_cfg id) false false (st, rands) script in
     f_res f = ASuccess /\
-    ~ (exists p rest, script = p ++ rest /\ ValidExchange HMAC hsize precis id rands (o_sent (f_out f)) p).
+    ~ (exists l0 e tail t3 m rest,
+        script = l0 ++ Reply code_challenge e :: tail ++ Reply code_success m :: rest /\
+        RunningExchange HMAC hsize precis id rands (o_sent (f_out f)) l0 e tail t3).
 Proof.
   intros. exists [Reply code_success []]. split; [reflexivity|].
-  intros (p & rest & E & V). apply valid_exchange_has_challenges in V.
-  destruct V as (l1 & mi & l2 & mj & ->).
-  assert (I : In (Reply code_challenge mi) [Reply code_success []]).
-  { rewrite E. apply in_or_app. left. apply in_or_app. right. left. reflexivity. }
+  intros (l0 & e & tail & t3 & m & rest & E & _).
+  assert (I : In (Reply code_challenge e) [Reply code_success []]).
+  { rewrite E. apply in_or_app. right. left. reflexivity. }
   destruct I as [I|[]]. discriminate.
+Qed.
+
+(* the statement is about the RUNNING exchange: a script in which the exchange was restarted after a completed one
+   (empty challenge, server-first, server-final, empty challenge, success) does not satisfy the conclusion *)
+Lemma app_cons_split : forall (A : Type) (l0 : list A) x r a L,
+  l0 ++ x :: r = a :: L -> (l0 = [] /\ x = a /\ r = L) \/ (exists l0', l0 = a :: l0' /\ l0' ++ x :: r = L).
+Proof.
+  intros A [|b l0] x r a L E; simpl in E; inversion E; subst; [left; auto|right; eauto].
+Qed.
+
+Lemma restart_invalidates_earlier_exchange :
+  forall HMAC hsize precis id rands sent mf mv m,
+    go_b64dec mf <> Some [] -> go_b64dec mv <> Some [] ->
+    ~ (exists l0 e tail t3 m' rest,
+        [Reply code_challenge []; Reply code_challenge mf; Reply code_challenge mv; Reply code_challenge []; Reply code_success m]
+          = l0 ++ Reply code_challenge e :: tail ++ Reply code_success m' :: rest /\
+        RunningExchange HMAC hsize precis id rands sent l0 e tail t3).
+Proof.
+  intros HMAC hsize precis id rands sent mf mv m NF NV (l0 & e & tail & t3 & m' & rest & E & R).
+  destruct R as (t1 & mi & t2 & mj & sf & salt & it & pw & cn & un & gs2 & cmb & cb & ET & DE & NR & _).
+  symmetry in E.
+  apply app_cons_split in E. destruct E as [(-> & E0 & E)|(l1 & -> & E)].
+  - (* the exchange starts at the first empty challenge: the second one lies in tail *)
+    apply app_cons_split in E. destruct E as [(-> & E1 & _)|(u1 & -> & E)]; [discriminate|].
+    apply app_cons_split in E. destruct E as [(-> & E1 & _)|(u2 & -> & E)]; [discriminate|].
+    apply app_cons_split in E. destruct E as [(-> & E1 & _)|(u3 & -> & E)]; [discriminate|].
+    inversion NR as [|x y _ NR1]; subst. inversion NR1 as [|x y _ NR2]; subst. inversion NR2 as [|x y P _]; subst.
+    apply (P [] eq_refl). reflexivity.
+  - apply app_cons_split in E. destruct E as [(-> & E1 & _)|(l2 & -> & E)].
+    { inversion E1; subst. contradiction. }
+    apply app_cons_split in E. destruct E as [(-> & E1 & _)|(l3 & -> & E)].
+    { inversion E1; subst. contradiction. }
+    apply app_cons_split in E. destruct E as [(-> & E1 & E)|(l4 & -> & E)].
+    + (* the exchange starts at the second empty challenge: nothing but the success reply follows *)
+      apply app_cons_split in E. destruct E as [(-> & _ & _)|(u1 & -> & E)].
+      * destruct t1; discriminate.
+      * destruct u1; discriminate.
+    + apply app_cons_split in E. destruct E as [(-> & E1 & _)|(l5 & -> & E)]; [discriminate|].
+      destruct l5; discriminate.
 Qed.
 
 (* T1: literals of the computation the model hard-codes *)
